@@ -324,8 +324,13 @@ def _suffix_names(el, suf, refs=("joint", "site", "body", "geom", "tendon", "obj
 
 
 def make_replicate_pair(root, rng):
-    """insert a small articulated subtree n times: A uses <replicate>, B writes the copies out inside frames.
-    -> (rootA, rootB, counts)"""
+    """insert a small articulated subtree n times: A uses <replicate>, B writes the copies out inside frames whose poses follow
+    the DOCUMENTED recursion (XMLreference replicate/euler "rotation ... between two subsequent replicas ... with respect to the
+    frame of the previous replica, so total rotation is cumulative", replicate/offset): T_i = T^i with T = (offset, R(euler)).
+    -> (rootA, rootB, counts, info); info = dict(multi, suffixes, count, mech).  For multi-axis pairs (>= 2 non-zero Euler
+    angles and count > 2, where the known finding C36-replicate-multi-axis-euler applies) info["mech"] is a third written-out
+    tree whose frame poses follow the finding's MECHANISM instead (replica i rotated by euler(i*e), positions accumulated
+    with those rotations): C36 uses it only as the counterfactual that confirms the mechanism, never as the oracle."""
     degree, seq = settings(root)
     u = 180.0 / math.pi if degree else 1.0
     count = int(rng.integers(2, 13))
@@ -353,13 +358,19 @@ def make_replicate_pair(root, rng):
                                 "contype": "0", "conaffinity": "0"})
     # documented: "the minimum number of digits required to represent the total element count"
     width = len(str(count))
+    multi = bool(has_rot and not single_axis and count > 2)
     A, B = copy.deepcopy(root), copy.deepcopy(root)
+    M = copy.deepcopy(root) if multi else None
+    rngM = np.random.default_rng(7)          # spelling noise of the counterfactual tree: private stream
     # host: worldbody or a random body (same one in both)
     bodiesA = [b for b in A.find("worldbody").iter("body")]
     bodiesB = [b for b in B.find("worldbody").iter("body")]
     hi = int(rng.integers(-1, len(bodiesA)))
     hostA = A.find("worldbody") if hi < 0 else bodiesA[hi]
     hostB = B.find("worldbody") if hi < 0 else bodiesB[hi]
+    hostM = None
+    if multi:
+        hostM = M.find("worldbody") if hi < 0 else [b for b in M.find("worldbody").iter("body")][hi]
     ra = {"count": str(count)}
     if sep:
         ra["sep"] = sep
@@ -374,20 +385,29 @@ def make_replicate_pair(root, rng):
     if hi >= 0:
         rep.append(copy.deepcopy(loose))
     p, R = np.zeros(3), np.eye(3)
+    pm = np.zeros(3)
+    sufs = []
     for i in range(count):
         suf = sep + str(i).zfill(width)
-        fr = ET.SubElement(hostB, "frame", {"pos": f(p)})
-        set_orient(fr, "quat", R, degree, seq, rng)
-        s = copy.deepcopy(sub)
-        _suffix_names(s, suf)
-        fr.append(s)
-        if hi >= 0:
-            l2 = copy.deepcopy(loose)
-            _suffix_names(l2, suf)
-            fr.append(l2)
+        sufs.append(suf)
+        trees = [(hostB, p, R, rng)]
+        if multi:
+            Rm = so3.euler_mat(i * e, seq)           # the reader: "overwrite orientation" with the scaled Euler angles
+            trees.append((hostM, pm, Rm, rngM))
+            pm = pm + Rm @ off                       # ... and accumulate the position with that orientation
+        for host_, p_, R_, rng_ in trees:
+            fr = ET.SubElement(host_, "frame", {"pos": f(p_)})
+            set_orient(fr, "quat", R_, degree, seq, rng_)
+            s = copy.deepcopy(sub)
+            _suffix_names(s, suf)
+            fr.append(s)
+            if hi >= 0:
+                l2 = copy.deepcopy(loose)
+                _suffix_names(l2, suf)
+                fr.append(l2)
         p, R = p + R @ off, R @ R1
     # referencing elements: an actuator on the joint and a sensor on the site are replicated automatically
-    for T, repl in ((A, False), (B, True)):
+    for T, repl in ((A, False), (B, True)) + (((M, True),) if multi else ()):
         act = T.find("actuator")
         if act is None:
             act = ET.SubElement(T, "actuator")
@@ -400,7 +420,8 @@ def make_replicate_pair(root, rng):
             ET.SubElement(sen, "framepos", {"name": "rx" + suf, "objtype": "site", "objname": "rs" + suf})
     key = "replicate:%s%s%s" % ("world" if hi < 0 else "body", ("-rot1" if single_axis else "-rot3") if has_rot else "",
                                 "-sep" if sep else "")
-    return A, B, {key: 1, "replicate:copies": count}, bool(has_rot and not single_axis and count > 2)
+    return A, B, {key: 1, "replicate:copies": count}, {"multi": multi, "mech": M, "suffixes": sufs, "count": count,
+                                                        "host_is_body": hi >= 0}
 
 
 # ---- attach -----------------------------------------------------------------------------------------------------
@@ -471,8 +492,11 @@ def selftest():
             for k, v in fn(r, rng).items():
                 tot[k.split(":")[0]] = tot.get(k.split(":")[0], 0) + v
             parse(tostring(r))
-        A, B, n, _ = make_replicate_pair(parse(xml), rng)
+        A, B, n, info = make_replicate_pair(parse(xml), rng)
         parse(tostring(A)), parse(tostring(B))
+        assert (info["mech"] is not None) == info["multi"] and len(info["suffixes"]) == info["count"]
+        if info["multi"]:
+            parse(tostring(info["mech"]))
     assert all(tot.get(k, 0) > 0 for k in ("orient", "eulerseq", "angle", "defaults", "frame")), tot
     return True
 
